@@ -232,14 +232,19 @@ func init() {
 			// maxTSNOffset is positive and fixed at construction
 			c.WritersWithin("window-size", mo, "newReceivePayloadQueue")
 			gm := c.Fn("getMaxTSNOffset")
-			okClamp := false
-			forEachInstr(gm, func(in ssa.Instruction) {
-				if call, ok := in.(*ssa.Call); ok {
-					if b, ok := call.Call.Value.(*ssa.Builtin); ok && b.Name() == "min" {
-						okClamp = true
-					}
+			// whatever the configured buffer, the result lies in [minTSNOffset, maxTSNOffset] (interval evaluation of every return)
+			var lo, hi int64
+			fmt.Sscan(c.P.Const("minTSNOffset").Val().String(), &lo)
+			fmt.Sscan(c.P.Const("maxTSNOffset").Val().String(), &hi)
+			okClamp := lo >= 1
+			for _, r := range allReturns(gm) {
+				v := retResults(r)[0]
+				ub, okU := c.P.upperBound(v, 0)
+				lb, okL := c.P.lowerBoundI(v, 0)
+				if !okU || ub > hi || !okL || lb < lo {
+					okClamp = false
 				}
-			})
+			}
 			c.Check(okClamp, "window-clamped", c.P.Pos(gm.Pos()), "tracking window clamped to [minTSNOffset, maxTSNOffset]", "tracking window no longer clamped")
 		}})
 
